@@ -119,7 +119,8 @@ fn build(ch: &mut Chooser, g: &G, ka: usize, kb: usize) -> (OBook, Grid, serde_j
         "rows": rows.iter().map(|r| json!({"repeat": r.repeat, "cells": r.cells.iter().map(|(c, n)| format!("{}{}x{}", if c.covered { "cov:" } else { "" }, match &c.val { OVal::Empty => "E".to_string(), v if *v == ks[ka].1 => "A".into(), _ => "B".into() }, n)).collect::<Vec<_>>()})).collect::<Vec<_>>()});
     // (row grouping elements, attribute order of the cell elements) of the document
     let form: (u8, u8) = if CORE_ONLY.with(|c| c.get()) { (0, 0) } else { [(0, 0), (1, 1), (2, 2), (3, 0), (0, 1), (0, 2)][ch.choose("document-form(rows in header-rows / row-group / rows elements; cell attribute order)", 6)] };
-    let book = OBook { sheets: vec![OSheet { name: "S".into(), rows, display: None }], xml_comments: doc_flag(ch, "xml-comments-inside-and-between-rows"), indent: doc_flag(ch, "document-indented"), cell_attr_order: form.1, row_wrappers: form.0, ..Default::default() };
+    let ind = if CORE_ONLY.with(|c| c.get()) { 0 } else { ch.choose("document-indented (no / LF line ends / CR LF line ends)", 3) };
+    let book = OBook { sheets: vec![OSheet { name: "S".into(), rows, display: None }], xml_comments: doc_flag(ch, "xml-comments-inside-and-between-rows"), indent: ind > 0, crlf: ind == 2, cell_attr_order: form.1, row_wrappers: form.0, ..Default::default() };
     (book, grid, desc)
 }
 
@@ -180,8 +181,8 @@ fn grids(rows: usize, cols: usize, maxn: usize) -> Vec<G> {
 
 pub fn check(rep: &Report) {
     let t = crate::thorough(&rep.tier);
-    rep.rule("logical grid = every rows x cols grid (quick: up to 3x3, 4x2 and 2x4 with 1..=3 non-empty cells, 4x3 and 3x4 with 1..=2; thorough: up to 3x3 with 1..=4, 4x2 / 2x4 / 4x3 / 3x4 with 1..=3, 5x4 / 2x5 with 1..=2) over {empty, A, B}, so every first used row/column and every interior/leading/trailing empty run occurs; A/B range over 9 value kinds; encoding = every composition of every maximal run of equal cells and equal rows, covered cells for empties, XML comments inside and between rows, rows inside table:table-header-rows / table:table-row-group / table:table-rows, trailing empties {absent, x1/exact, +1020, to column 16384}, trailing rows {absent, exact, +1000, to row 1048576}, stored/deflated; all vectors with <= 2 (thorough 3; on grids above 9 cells the third deviation only among the run-length / covering / trailing choices) deviations, plus the full product of the run-length / covering / trailing choices when it is <= limit; non-trivial = non-default encoding; distinct by file bytes");
-    rep.assume("empty-string cells and whitespace between elements (pretty-printed content.xml) are not generated");
+    rep.rule("logical grid = every rows x cols grid (quick: up to 3x3, 4x2 and 2x4 with 1..=3 non-empty cells, 4x3 and 3x4 with 1..=2; thorough: up to 3x3 with 1..=4, 4x2 / 2x4 / 4x3 / 3x4 with 1..=3, 5x4 / 2x5 with 1..=2) over {empty, A, B}, so every first used row/column and every interior/leading/trailing empty run occurs; A/B range over 9 value kinds; encoding = every composition of every maximal run of equal cells and equal rows, covered cells for empties, XML comments inside and between rows, the document indented with LF or CR LF line ends, rows inside table:table-header-rows / table:table-row-group / table:table-rows, trailing empties {absent, x1/exact, +1020, to column 16384}, trailing rows {absent, exact, +1000, to row 1048576}, stored/deflated; all vectors with <= 2 (thorough 3; on grids above 9 cells the third deviation only among the run-length / covering / trailing choices) deviations, plus the full product of the run-length / covering / trailing choices when it is <= limit; non-trivial = non-default encoding; distinct by file bytes");
+    rep.assume("empty-string cells are not generated; white space between elements is the indentation of the document-level choice (none / LF / CR LF line ends), never inside a paragraph");
     // (rows, cols, max non-empty cells, deviation bound over all choices, deviation bound over the run-length / covering / trailing choices)
     let dims: Vec<(usize, usize, usize, usize, usize)> = if t { vec![(1, 1, 1, 3, 3), (2, 2, 4, 3, 3), (3, 3, 3, 2, 3), (3, 3, 4, 2, 2), (4, 2, 3, 2, 2), (2, 4, 3, 2, 2), (4, 3, 3, 2, 2), (3, 4, 3, 2, 2), (5, 4, 2, 2, 2), (2, 5, 2, 2, 2)] } else { vec![(1, 1, 1, 2, 2), (2, 2, 3, 2, 2), (3, 3, 3, 2, 2), (4, 2, 3, 2, 2), (2, 4, 3, 2, 2), (4, 3, 2, 2, 2), (3, 4, 2, 2, 2)] };
     let mut jobs: Vec<(G, usize, usize, usize, usize)> = vec![];
